@@ -13,6 +13,7 @@ TARGETS = {
     "revert-19133e7": ["C13", "C04"], "revert-4c3914e": ["C17"],
     "C13-A-fold-order": ["C13"], "mine-C01-noescape": ["C01"], "mine-C01-page5": ["C01"], "mine-C20-noplus": ["C20"], "mine-C20-underscore1": ["C20"],
     "C04-A": ["C04", "C09"], "C04-B": ["C04", "C07"], "C05-A": ["C05", "C07"], "C05-B": ["C05", "C07"], "C06-A": ["C06", "C16"], "C06-B": ["C06", "C16"],
+    "C05-2A": ["C05", "C17"], "C16-2A": ["C16", "C15"], "C18-2B": ["C18", "C17"], "C02-2B": ["C02", "C12"], "C12-2A": ["C12", "C02"], "C03-2A": ["C03"], "C19-2A": ["C19"],
     "C10-A": ["C10"], "C10-B": ["C10"], "C17-A": ["C17"], "C17-B": ["C17", "C02"], "C03-B": ["C03", "C02"], "C14-A": ["C14"], "C14-B": ["C14"], "C16-A": ["C16", "C18"],
 }
 names = sorted(os.listdir(os.path.join(ROOT, "seeded")))
@@ -23,7 +24,11 @@ if sel:
 out_path = os.path.join(ROOT, "seeded", "MATRIX.json")
 matrix = json.load(open(out_path)) if os.path.exists(out_path) else {}
 for n in names:
-    checks = TARGETS.get(n) or [n.split("-")[0]]
+    if n.startswith("refactor-"):
+        # behaviour-preserving refactorings: EVERY check must stay quiet (no VIOLATION)
+        checks = ["C%02d" % k for k in range(1, 21) if k != 11]
+    else:
+        checks = TARGETS.get(n) or [n.split("-")[0]]
     for c in checks:
         t0 = time.time()
         env = dict(os.environ, VF_REPO=os.environ.get("VF_REPO", "/tmp/mrepo"), VF_OUT_DIR="/tmp/mrepo_out")
